@@ -319,7 +319,14 @@ func (s *SpokFile) findClosestMatch(task string) string {
 // If a spokfile is found, it's absolute path will be returned
 // typical usage will make start = $CWD and stop = $HOME.
 func Find(logger logger.Logger, start, stop string) (string, error) {
+	start = filepath.Clean(start)
+	stop = filepath.Clean(stop)
 	for {
+		// Never look in a directory above 'stop', which is where the climb
+		// ends up if 'start' was not underneath 'stop' to begin with
+		if isAbove(start, stop) {
+			return "", errors.New("No spokfile found")
+		}
 		logger.Debug("Looking in %s for spokfile", start)
 		entries, err := os.ReadDir(start)
 		if err != nil {
@@ -334,12 +341,25 @@ func Find(logger logger.Logger, start, stop string) (string, error) {
 					return "", fmt.Errorf("could not resolve '%s': %w", e.Name(), err)
 				}
 				return abs, nil
-			} else if start == stop {
-				return "", errors.New("No spokfile found")
 			}
 		}
-		start = filepath.Dir(start)
+
+		// Only give up on a directory once all of it's entries have been looked at
+		parent := filepath.Dir(start)
+		if start == stop || parent == start {
+			return "", errors.New("No spokfile found")
+		}
+		start = parent
 	}
+}
+
+// isAbove reports whether dir is a proper ancestor of path.
+func isAbove(dir, path string) bool {
+	rel, err := filepath.Rel(dir, path)
+	if err != nil {
+		return false
+	}
+	return rel != "." && rel != ".." && !strings.HasPrefix(rel, ".."+string(filepath.Separator))
 }
 
 // New converts a parsed spok AST into a concrete File object,
